@@ -45,7 +45,7 @@ class C02(Check):
                        "feat:repeated-key", "feat:qudit-measure", "feat:classical-control", "feat:sympy-condition",
                        "feat:bitmask-condition", "feat:indexed-condition", "feat:pauli-measure", "feat:reset", "feat:subcircuit", "feat:subcircuit-key-map", "feat:subcircuit-rep-ids",
                        "sim:sv", "sim:dm", "sim:clifford", "sim:stab-sampler", "entry:run", "entry:simulate",
-                       "entry:steps", "entry:sample", "entry:run_sweep", "entry:sweep-from-state", "entry:direct-functions", "entry:step-sampling", "step-sampling:integer-seed", "direct:sample_from_amplitudes", "direct:measure_density_matrix", "gen:deep-clifford", "init:vector", "init:int", "order:permuted", "order:spectator"]
+                       "entry:steps", "entry:sample", "entry:run_sweep", "entry:sweep-from-state", "entry:direct-functions", "mux:subcircuit-clifford-only-as-product", "entry:step-sampling", "step-sampling:integer-seed", "direct:sample_from_amplitudes", "direct:measure_density_matrix", "gen:deep-clifford", "init:vector", "init:int", "order:permuted", "order:spectator"]
 
     def setup(self) -> None:
         from simkit import repoenv
@@ -111,7 +111,12 @@ class C02(Check):
         max_reps = max(1, int(8.6 // bits))
         reps = 1 + tape.draw(min(3, max_reps), "reps")
         # simulator configuration
-        if clifford:
+        product_clifford = "subcircuit-clifford-only-as-product" in g.features
+        if clifford and product_clifford:
+            # not runnable by the stabilizer simulators (rightly); what is under test is the general
+            # simulators and, through cirq.sample, the choice of simulator
+            kind = ["sv", "dm"][tape.weighted([3, 2], "sim-kind")]
+        elif clifford:
             kind = ["clifford", "stab-sampler", "sv", "dm"][tape.weighted([3, 3, 1, 1], "sim-kind")]
         else:
             kind = ["sv", "dm"][tape.weighted([3, 2], "sim-kind")]
@@ -125,6 +130,9 @@ class C02(Check):
         if kind == "clifford":
             weights = [4, 3, 2, 1, 0]
         entry = entries[tape.weighted(weights, "entry")]
+        if product_clifford and tape.chance(2, 3, "mux-on-product-clifford?"):
+            entry = "sample"
+            ctx.probe("mux:subcircuit-clifford-only-as-product")
         if kind in ("sv", "dm") and not clifford:
             # cirq.sample() picks a simulator from the circuit's content; the interesting inputs are the
             # ones on which its "is this a Clifford circuit" test says yes for an unusual reason
